@@ -414,6 +414,41 @@ func (g *gen) vector() *vec {
 	return v
 }
 
+// inboxify puts a spelling of "inbox" into the first hierarchy component of the name and, where the pattern's first
+// component is literal, another (or the same) spelling into that: to the matcher these are ordinary characters.
+func (g *gen) inboxify(v *vec) {
+	words := []string{"INBOX", "inbox", "Inbox", "iNBOX"}
+	first := func(s []rune, from int) int {
+		for i := from; i < len(s); i++ {
+			if v.D != 0 && s[i] == v.D {
+				return i
+			}
+		}
+		return len(s)
+	}
+	ne := first(v.N, 0)
+	v.N = append([]rune(words[g.r.Intn(len(words))]), v.N[ne:]...)
+	ps := 0
+	if v.D != 0 && len(v.P) > 0 && v.P[0] == v.D {
+		ps = 1
+	}
+	pe := first(v.P, ps)
+	for _, c := range v.P[ps:pe] {
+		if c == '*' || c == '%' {
+			return
+		}
+	}
+	np := append([]rune{}, v.P[:ps]...)
+	np = append(np, []rune(words[g.r.Intn(len(words))])...)
+	v.P = append(np, v.P[pe:]...)
+	if len(v.N) > maxLen+5 {
+		v.N = v.N[:maxLen+5]
+	}
+	if len(v.P) > maxLen+5 {
+		v.P = v.P[:maxLen+5]
+	}
+}
+
 func cmdRandom(path string, seed int64, n int) {
 	out := vh.NewOut()
 	defer out.Flush()
@@ -429,6 +464,9 @@ func cmdRandom(path string, seed int64, n int) {
 	seen := map[string]bool{}
 	for i := 0; i < n; i++ {
 		v := g.vector()
+		if g.r.Intn(5) == 0 {
+			g.inboxify(v)
+		}
 		got, p := call(v)
 		if p != "" {
 			// a panic is reported directly: there is nothing to record for the trace spec
